@@ -378,17 +378,20 @@ Inductive ep := EPSimple (s : script) (prefix : string) | EPComplex (prefix : st
 
 Definition prefix_of (n : Z) : string := "_" ++ string_of_Z n.
 
+(* replace the k-th element of a list *)
+Definition upd_nth {A} (f : A -> A) : nat -> list A -> list A :=
+  fix go (k : nat) (l : list A) : list A :=
+    match l with
+    | [] => []
+    | x :: xs => match k with O => f x :: xs | S k' => x :: go k' xs end
+    end.
+
 (* addOp at the node reached by a path of operand indices (simple nodes ignore addOp) *)
 Fixpoint add_op_at (path : list nat) (node : ep) (t : ep) : ep :=
   match path, t with
   | [], EPComplex p f ops => EPComplex p f (ops ++ [node])
   | [], EPSimple _ _ => t
-  | i :: r, EPComplex p f ops =>
-      EPComplex p f ((fix upd (k : nat) (l : list ep) : list ep :=
-                        match l with
-                        | [] => []
-                        | x :: xs => match k with O => add_op_at r node x :: xs | S k' => x :: upd k' xs end
-                        end) i ops)
+  | i :: r, EPComplex p f ops => EPComplex p f (upd_nth (add_op_at r node) i ops)
   | _ :: _, EPSimple _ _ => t
   end.
 Fixpoint node_at (path : list nat) (t : ep) : option ep :=
